@@ -83,7 +83,22 @@ def make_lists(ctx, rnd):
             bad = True
         if not bad:
             lists.append(members)
+    # the origin's REP is the user's choice too: an unsigned origin (kelvins(5u)) next to a negative
+    # signed one is compared in the unsigned common type (known finding K-5); always present
+    for j, (mu, ou_, ov_, ms, os_, ovs) in enumerate([(Fraction(1), Fraction(1), 5, Fraction(1, 2), Fraction(1), -5),
+                                                      (Fraction(1, 10), Fraction(1, 100), 27315, Fraction(1), Fraction(1, 10), -40),
+                                                      (Fraction(5, 9), Fraction(1), 0, Fraction(1), Fraction(1), -273)]):
+        lists.append([points.generated("U%d_0" % j, "au::Kelvins", mu, ou_, ov_, unsigned_origin=True),
+                      points.generated("U%d_1" % j, "au::Kelvins", ms, os_, ovs, int_origin=True)])
+    # ... and unsigned origins among non-negative ones (compared correctly)
+    for j in range(4):
+        lists.append([points.generated("V%d_0" % j, "au::Kelvins", Fraction(rnd.randrange(1, 50), rnd.randrange(1, 50)), Fraction(1, rnd.choice([1, 10, 100])), rnd.randrange(0, 30000), unsigned_origin=True),
+                      points.generated("V%d_1" % j, "au::Kelvins", Fraction(rnd.randrange(1, 50), rnd.randrange(1, 50)), Fraction(1, rnd.choice([1, 10, 100])), rnd.randrange(0, 30000))])
     return lib, lists
+
+
+def mixed_signedness(members):
+    return any(m.o_rep == "unsigned" for m in members) and any(m.o < 0 for m in members)
 
 
 def body(ctx):
@@ -122,7 +137,7 @@ def body(ctx):
                     # constant evaluator: the common point unit does not exist; nothing to decide
                     skipped_overflow.append(key)
                 else:
-                    ctx.violation(key + "|exists", "CommonPointUnitT of [%s] is ill-formed: %s" % (", ".join(repr(m) for m in members), vals[k][1]))
+                    ctx.violation(("origin-rep-signedness|exists" if mixed_signedness(members) else key + "|exists"), "CommonPointUnitT of [%s] is ill-formed: %s" % (", ".join(repr(m) for m in members), vals[k][1]))
                 break
         else:
             mC = model.mag_to_fraction(dict(extract.flat_to_pack(vals["cm_%d" % i])))
@@ -140,13 +155,13 @@ def body(ctx):
                 off = (m.o - oC) / mC
                 if not (ratio.denominator == 1 and ratio > 0):
                     ok_all = False
-                    ctx.violation(key + "|ratio:" + m.cpp, "converting from %s to the common point unit of [%s] multiplies by %s, not a positive integer (sizes %s and %s)"
+                    ctx.violation(("origin-rep-signedness|ratio" if mixed_signedness(members) else key + "|ratio:" + m.cpp), "converting from %s to the common point unit of [%s] multiplies by %s, not a positive integer (sizes %s and %s)"
                                   % (m.cpp, ", ".join(ts), ratio, m.m, mC), "\n".join(repr(x) for x in members))
                 else:
                     ndis += 1
                 if not (off.denominator == 1 and off >= 0):
                     ok_all = False
-                    ctx.violation(key + "|offset:" + m.cpp, "converting from %s to the common point unit of [%s] adds %s, not a non-negative integer (origins %s and %s, common size %s)"
+                    ctx.violation(("origin-rep-signedness|offset" if mixed_signedness(members) else key + "|offset:" + m.cpp), "converting from %s to the common point unit of [%s] adds %s, not a non-negative integer (origins %s and %s, common size %s)"
                                   % (m.cpp, ", ".join(ts), off, m.o, oC, mC), "\n".join(repr(x) for x in members))
                 else:
                     ndis += 1
@@ -194,6 +209,8 @@ def body(ctx):
             winners = sorted({m.cpp for m in members if m.m == mC and m.o == oC})
             if winners:
                 lines.append("static_assert(%s, \"an input that already has the common size and origin is the result\");" % " || ".join("std::is_same<C, %s>::value" % w for w in winners))
+            if mixed_signedness(members):
+                continue  # (the model values above are what the finding is about; no witness program for these)
             items.append(witness.Item(key, "\n".join(lines), "accept", None, dict(desc="common point unit of [%s] (size %s, origin %s)" % (", ".join(repr(m) for m in members), mC, oC))))
     neq = sum(1 for l in lists if len(l) >= 3 and len({m.m for m in l}) == 1 and any("decltype" in m.cpp for m in l))
     ctx.require(neq >= len(lists) // 10, "only %d lists of three or more equal-size units with an anonymous scaled member" % neq)
@@ -202,7 +219,7 @@ def body(ctx):
     nbad = witness.report_mismatches(ctx, items, results, prelude=prelude)
     ctx.coverage.update(dict(
         evaluations=len(lists) + len(items) * len(configs), distinct_nontrivial=len(lists),
-        rule="one seeded list (pair or triple) of point units from {Kelvins, Celsius, Fahrenheit, prefixed forms} and generated units with rational size (num, den < 1000) and rational origin (positive, zero, negative, expressed in another unit): size and origin of CommonPointUnitT are read out of the type; ratio and offset of every input are decided exactly in the model; in three lists of ten the members have EQUAL size and pairwise different origins and mix named units with anonymous scaled units of library / generated roots (Celsius*5/9, Kilo<Kelvins>/1800 next to Fahrenheit), so that the ordering criteria below the size decide; permutation / repetition identity, nesting, the function forms (common_point_unit, make_common_point and common_point_unit over point makers), winner-is-an-input, mixed-rep comparison and difference of two members (a uint8_t value whose image leaves its own rep against an int64_t one: exact in the common rep) and agreement with the library's own conversion and origin_displacement are static_asserts",
+        rule="one seeded list (pair or triple) of point units from {Kelvins, Celsius, Fahrenheit, prefixed forms} and generated units with rational size (num, den < 1000) and rational origin (positive, zero, negative, expressed in another unit, held in a signed or an unsigned rep): size and origin of CommonPointUnitT are read out of the type; ratio and offset of every input are decided exactly in the model; in three lists of ten the members have EQUAL size and pairwise different origins and mix named units with anonymous scaled units of library / generated roots (Celsius*5/9, Kilo<Kelvins>/1800 next to Fahrenheit), so that the ordering criteria below the size decide; permutation / repetition identity, nesting, the function forms (common_point_unit, make_common_point and common_point_unit over point makers), winner-is-an-input, mixed-rep comparison and difference of two members (a uint8_t value whose image leaves its own rep against an int64_t one: exact in the common rep) and agreement with the library's own conversion and origin_displacement are static_asserts",
         samples=[dict(list=[repr(m) for m in lists[0]])], exhaustive=False,
         lists=len(lists), lists_equal_size_three_or_more=neq, lists_without_common_point_unit_overflowing_origin_comparison=len(skipped_overflow), model_obligations=nob, model_discharged=ndis, w_items=len(items), w_mismatches=nbad, configs=[c.name for c in configs], engine_stats=stats))
     ctx.assumptions += ["maximality of the common point unit is NOT demanded (the statement does not ask for it)"]
